@@ -385,6 +385,10 @@ def evidence(tier):
                    'symbolic; do_raise on and off compared on the same '
                    'input' % (len(RULEKINDS), len(EXCKINDS)),
                    'debug': 'debug dump on/off with unformattable inputs'},
+        'bounds_more': {'reuse': 'one credentials object (RequestContext / '
+                        'dict / policy-values mapping) enforced, changed in '
+                        'place (roles re-assigned, list edited, project '
+                        're-assigned), enforced again; do_raise off and on'},
         'symbols': ['leaf.<n>: Bool', 'system_scoped, domain_scoped, weird: '
                     'Bool'],
         'stubs': ['library logger level switched for the debug rows'],
